@@ -2,6 +2,7 @@
 # MANIFEST.setup_cmd: build the framework from files on disk only (offline).
 set -e
 cd "$(dirname "$0")"
+export VERIF_DIR="$PWD"
 export GOFLAGS=-mod=mod GOPROXY=off GOSUMDB=off GOTOOLCHAIN=local
 mkdir -p bin .cache/gobase
 export GOCACHE="$PWD/.cache/gobase"
